@@ -123,8 +123,8 @@ impl Scenario for Ribbit {
     }
     fn runs(&self, tier: Tier) -> u64 {
         match tier {
-            Tier::Quick => 8_000,
-            Tier::Thorough => 200_000,
+            Tier::Quick => 40_000,
+            Tier::Thorough => 1_000_000,
         }
     }
 
@@ -595,6 +595,9 @@ async fn run(case: &Case, ctx: &mut Ctx) -> Option<Violation> {
         match h.await {
             Ok((ci, summary, res)) => {
                 ctx.event(|| json!({"k":"op","client":ci,"what":summary}));
+                if let Some(Client::Bad { kind, .. }) = case.clients.get(ci) {
+                    ctx.fault(&format!("malformed_client:{kind}"));
+                }
                 ctx.obs(summary.split(" took ").next().unwrap_or("").as_bytes());
                 if let (Err((class, extra, detail)), Some(Client::Bad { .. })) = (res, case.clients.get(ci)) {
                     set(Violation::new(&format!("C15.{class}"), &class, format!("C15/ribbit/{class}{extra}"), detail));
